@@ -21,10 +21,13 @@ for spec in "$@"; do
     ID="${spec%%:*}"; P="${spec#*:}"
     case "$P" in /*) ;; *) P="/verif/$P";; esac
     (cd $ST/repo && git checkout -q -- .)
-    if ! (cd $ST/repo && git apply "$P" 2>/dev/null); then echo "SEEDTEST $ID $P => PATCH-DOES-NOT-APPLY"; continue; fi
+    # "<ID>:-" = no patch: the unchanged tree (silence runs; MISSED is the wanted outcome there)
+    if [ "$P" != "/verif/-" ]; then
+        if ! (cd $ST/repo && git apply "$P" 2>/dev/null); then echo "SEEDTEST $ID $P => PATCH-DOES-NOT-APPLY"; continue; fi
+    fi
     OUT=$(cd $ST/verif && VERIF_REPO=$ST/repo ./run.sh "$ID" "$TIER" 2>&1); RC=$?
     (cd $ST/repo && git checkout -q -- .)
     V=$(echo "$OUT" | grep -A1 "^VIOLATION" | grep "sub=" | head -1 | cut -c1-260)
     if [ $RC -eq 1 ] && echo "$OUT" | grep -q "^VIOLATION"; then R="DETECTED"; elif [ $RC -eq 0 ]; then R="MISSED"; else R="INCONCLUSIVE(rc=$RC) $(echo "$OUT" | tail -3 | tr '\n' ' ' | cut -c1-300)"; fi
-    echo "SEEDTEST $ID $P => $R $V"
+    echo "SEEDTEST $ID $P seed=${VERIF_SEED:-0} => $R $V"
 done
